@@ -1064,6 +1064,20 @@ impl<'a> FnTr<'a> {
                 }
                 Ok((format!("[{}]", terms.join(", ")), Ty::Arr(Box::new(ety))))
             }
+            // builder J: `[v; N]` (N a literal, a constant or a const-generic parameter)
+            Expr::Repeat(r) => {
+                let el_exp = match &expect {
+                    Some(Ty::Arr(t)) => Some((**t).clone()),
+                    _ => None,
+                };
+                let (v, tv) = self.ex(&r.expr, env, st, el_exp.clone())?;
+                let tv = match (&tv, el_exp) {
+                    (Ty::IntLit, Some(t)) => t,
+                    _ => tv,
+                };
+                let (n, _) = self.ex(&r.len, env, st, Some(Ty::Int("usize")))?;
+                Ok((format!("(List.replicate (Int.toNat {}) {})", paren(&n), paren(&v)), Ty::Arr(Box::new(tv))))
+            }
             Expr::Macro(m) => Err(format!("unsupported macro expr {}", path_str(&m.mac.path))),
             _ => Err(format!("unsupported expression: {}", quote::quote!(#e))),
         }
@@ -1164,6 +1178,40 @@ impl<'a> FnTr<'a> {
 
     fn method(&mut self, m: &ExprMethodCall, env: &mut Env, st: &mut Stmts, expect: Option<Ty>) -> Res<(String, Ty)> {
         let name = m.method.to_string();
+        // builder J: `(a..=b).contains(&x)` / `(a..b).contains(&x)` on integer ranges (band limits,
+        // margin range).  A range is no value in the IR, so this is decided before the receiver is
+        // translated.
+        if name == "contains" && m.args.len() == 1 {
+            let mut recv = &*m.receiver;
+            while let Expr::Paren(p) = recv {
+                recv = &p.expr;
+            }
+            if let Expr::Range(r) = recv {
+                let (x, tx) = self.ex(&m.args[0], env, st, None)?;
+                let ity = match &tx {
+                    Ty::Int(_) => tx.clone(),
+                    _ => return Err(format!("range contains: argument is not an integer ({:?})", tx)),
+                };
+                let mut parts = vec![];
+                if let Some(s) = &r.start {
+                    let (a, ta) = self.ex(s, env, st, Some(ity.clone()))?;
+                    unify(&ta, &ity)?;
+                    parts.push(format!("{} ≤ {}", a, x));
+                }
+                if let Some(e) = &r.end {
+                    let (b, tb) = self.ex(e, env, st, Some(ity.clone()))?;
+                    unify(&tb, &ity)?;
+                    match r.limits {
+                        RangeLimits::Closed(_) => parts.push(format!("{} ≤ {}", x, b)),
+                        RangeLimits::HalfOpen(_) => parts.push(format!("{} < {}", x, b)),
+                    }
+                }
+                if parts.is_empty() {
+                    return Ok(("true".into(), Ty::Bool));
+                }
+                return Ok((format!("decide ({})", parts.join(" ∧ ")), Ty::Bool));
+            }
+        }
         let (r, tr) = self.ex(&m.receiver, env, st, None)?;
         match &tr {
             Ty::Int(_) | Ty::IntLit => {
